@@ -37,7 +37,10 @@ CLAIMED = {
           "identity, seeded-noise and chirp instantiations (dyadic, 187.5 MHz and 3 GHz rates, both orientations, "
           "real and complex custom sources) and the decoded sample identities, evaluation times, noise values, "
           "clocks and flags are compared with TLC's post-state after every call. Refused requests (negative or fractional "
-          "counts) are actions of the model: they raise and leave clocks, flags and draw indices untouched. Leg T: recorded "
+          "counts) are actions of the model: they raise and leave clocks, flags and draw indices untouched; so is a request "
+          "made of ONE polarisation stream directly (Peek: it alone runs ahead, variable skew), which the next set_time / "
+          "add_time / reset_start must undo (ResyncAtStart); the clock relations are also proved for requests of any size "
+          "and any tick by an inductive invariant (Inductive.tla machine C, Apalache, thorough tier). Leg T: recorded "
           "executions of every source call (harness/record_stream.py; free-form drivers and the repository's voltage tests, "
           "where RawVoltageBackend.record is the caller) are validated against StreamTrace.tla: families start together, a "
           "request moves every clock it drives by exactly its size, clocks are continuous between calls."),
@@ -72,7 +75,8 @@ CLAIMED = {
           "quantiser object inside real recordings (digitisers and requantisers per antenna / polarisation / component, "
           "periods incl. <= 0, second recordings, the repository's voltage tests) is validated against QuantTrace.tla; the "
           "refresh counter and 'cached statistics come from the most recent scheduled call' are proved inductively for any "
-          "period and any number of calls (Inductive.tla, Apalache, thorough tier)."),
+          "period and any number of calls (Inductive.tla, Apalache, thorough tier). Target means are drawn in quarters "
+          "(0, 1, -2, 0.5, -3.75, 2.25): the target mean sits inside the rounding."),
     note=("Trusted: TLC, inputs built with exactly representable prefix mean/deviation (stats_calc_num_samples=2), "
           "+-1e30 as 'huge'. Bounded: bits 2..8, periods -2..4, K in {1,3}, <= 10 calls. Internal attributes "
           "stats_calc_indices/stats_cache are compared when present."),
@@ -265,7 +269,9 @@ CLAIMED = {
           "propagation, every frame's ts restored, every frame's data equal to TLC's matrix (zero for frames at/after the "
           "raise), consolidation in order with absolute times, overwrite_times chain and slew_times equal to TLC's, "
           "sub-cadences never re-spacing the parent. Two consecutive cadence-wide injections over different sub-cadences "
-          "(direct frame injection in between, BaseException callbacks) are part of the model. Leg T: recorded executions "
+          "(direct frame injection in between, BaseException callbacks) are part of the model, and so is a change of the "
+          "start times between them (action Retime: overwrite_times with another slew time, or one start time assigned "
+          "directly) -- the second injection owes the offsets of the start times as they are then. Leg T: recorded executions "
           "of Cadence.add_signal (per-member Inject events with the time-axis offset of every member at that moment, "
           "raising callbacks, overwrite_times) incl. the repository's own cadence injection test are validated against "
           "CadenceTrace.tla (in list order, offset = relative start, stops at the raise, axes restored, start times "
@@ -304,7 +310,9 @@ CLAIMED = {
           "changes another object). Replaced time axes (shifted, or gapped as Cadence.consolidate makes them) are part of "
           "the state: de-drifting and integration go by row index, the TimeSeries carries the parent's axis; every "
           "sequence over a small alphabet around them is enumerated exhaustively (Focus = derive). Leg T: every recorded "
-          "slice / de-drift / integrate call (drivers and the repository's tests) is validated against FrameTrace.tla."),
+          "slice / de-drift / integrate call (drivers and the repository's tests) is validated against FrameTrace.tla, which "
+          "also tracks the drift rate each frame's own bookkeeping dictionary was left with (add_metadata / derivation): a "
+          "de-drift 'from metadata' and get_metadata must see that rate, not one written through a parent or child."),
     note=("Trusted: as C03. Drift rates are multiples of a quarter channel per row on exactly representable geometries "
           "plus BL hi-res; |q| <= 9/4 channels per row."),
     technique="TLA+ model (TLC exhaustive) + spec-generated behaviours replayed on the implementation + trace validation of recorded executions",
